@@ -120,4 +120,46 @@ def dictOf {κ ν} [BEq κ] (items : List (κ × ν)) : Dict κ ν :=
 def dictKeys {κ ν} (d : Dict κ ν) : List κ := d.map (·.1)
 def dictValues {κ ν} (d : Dict κ ν) : List ν := d.map (·.2)
 
+/-! ### the operator dictionaries (method mode of the translator): what `self` holds -/
+
+/-- the mutable state a method of `OperatorDict` touches: its own `operator_dict`, the algebra-wide `numspace`, and a log
+    of the completed code generations (history variable added by the translation of the external `do_codegen` call) -/
+structure ODState (κ ρ φ ν : Type) where
+  operator_dict : Dict κ (ρ × φ)
+  numspace : Dict ν φ
+  gens : List κ
+
+/-- what the methods call out to -/
+structure ODEnv (κ ρ φ ν ω : Type) where
+  /-- `do_codegen(self.codegen, *symbolic operands with these keys)` / `do_compile(..)`: may raise -/
+  do_codegen : κ → M (ρ × φ)
+  /-- `func.__name__` -/
+  name : φ → ν
+  /-- `algebra.wrapper` -/
+  wrapper : Option (φ → φ)
+  /-- calling a generated function on coefficient values -/
+  apply : φ → ω → M ω
+  /-- whether `algebra.simp_func` is set -/
+  simp_func : Bool
+  /-- `OperatorDict.filter(keys_out, values_out)` -/
+  filter : ρ → ω → ρ × ω
+
+/-- an operand as the call methods see it -/
+structure ODArg (κ ω : Type) where
+  keys : κ
+  issymbolic : Bool
+  values : ω
+
+/-- the external call `do_codegen(...)`: run it, and log the generation when it returned.
+    Methods are translated into `ExceptT String (StateM σ)`: like in python, the state reached when an exception is raised
+    is kept (an exception does not roll back earlier stores). -/
+def odCodegen {κ ρ φ ν ω : Type} (env : ODEnv κ ρ φ ν ω) (k : κ) : ExceptT String (StateM (ODState κ ρ φ ν)) (ρ × φ) := do
+  let r ← (env.do_codegen k : M (ρ × φ))
+  modify fun s => { s with gens := k :: s.gens }
+  return r
+
+/-- run a translated method from a state: what it returned or raised, and the state it left behind -/
+def runMethod {σ α : Type} (x : ExceptT String (StateM σ) α) (s : σ) : Except String α × σ :=
+  Id.run (StateT.run (ExceptT.run x) s)
+
 end Kingdon.Py
